@@ -880,3 +880,51 @@ func flagCellOf(v ssa.Value) *ssa.Alloc {
 	}
 	return nil
 }
+
+// ruleDefaultOnlyWhenAbsent: the default step stands in for a flag that was not given, and only for
+// that: defaultStep is reached only where the optional parameter's Get() reported absence. A value
+// that is present but unusable (empty, malformed) goes to the parser and is rejected.
+func ruleDefaultOnlyWhenAbsent(r *Run) {
+	p := r.P
+	pst := p.Func(cmdPkg, "parseStep")
+	dst := p.Func(cmdPkg, "defaultStep")
+	o := r.Ob("PV-OKGATE", "main.parseStep default", "the default step is used iff --step was not given; a given but empty or malformed value is rejected, not replaced")
+	if pst == nil || dst == nil {
+		o.Fail("-", "parseStep/defaultStep not found")
+		return
+	}
+	n, bad := 0, false
+	for _, gf := range funcGroup(pst) {
+		for _, c := range callsIn(gf) {
+			if staticCallee(c) != dst {
+				continue
+			}
+			n++
+			lifted := liftInstr(c, pst, funcGroup(pst), false)
+			if lifted == nil {
+				lifted = c
+			}
+			gated := false
+			for _, f := range factsAt(lifted.Block()) {
+				ex, ok := f.Cond.(*ssa.Extract)
+				if !ok || ex.Index != 1 || f.Truth {
+					continue
+				}
+				if call, ok := ex.Tuple.(*ssa.Call); ok && cname(staticCallee(call)) == "Get" && len(call.Call.Args) == 1 && unspill(call.Call.Args[0]) == ssa.Value(pst.Params[0]) {
+					gated = true
+				}
+			}
+			if !gated {
+				bad = true
+				o.Fail(r.pos(c.Pos()), "defaultStep is reached on a path where the step parameter is not known to be absent (Get() ok == false): an explicitly given value can be replaced by the default")
+			}
+		}
+	}
+	if n == 0 {
+		bad = true
+		o.Fail(r.pos(pst.Pos()), "parseStep never uses defaultStep")
+	}
+	if !bad {
+		o.OK("defaultStep only under param.Get() ok == false").At(r.pos(pst.Pos()))
+	}
+}
